@@ -169,6 +169,10 @@ class FakeState:
         self.pending_async: list = []
         self.fail_at: int | None = None   # index of the sync call that raises (checkpoint failure)
         self.n_sync = 0
+        self.fail_refresh = False   # the next EMPTY (state refresh) checkpoint fails; afterwards the pipeline is dead: every call raises
+        self.dead = None
+        self.exempt_first_starts = False   # see create_checkpoint
+        self._started_ctx = set()
 
     # -- real semantics of ExecutionState.get_checkpoint_result
     def get_checkpoint_result(self, checkpoint_id):
@@ -183,6 +187,20 @@ class FakeState:
         self.ops[u.operation_id] = self.backend.apply(self.ops.get(u.operation_id), u)
 
     def create_checkpoint(self, operation_update=None, is_sync=True):
+        if operation_update is not None and operation_update.operation_type is OperationType.CONTEXT and operation_update.action is OperationAction.START:
+            first = operation_update.operation_id not in self._started_ctx
+            self._started_ctx.add(operation_update.operation_id)
+        else:
+            first = False
+        if self.dead is not None and not (self.exempt_first_starts and first):
+            # (exempt_first_starts: in the pool model a branch body runs atomically when the task FINISHES, but its context START was really
+            # issued when the task started - for initially submitted branches with a free worker that is before any later failure)
+            raise self.dead
+        if operation_update is None and self.fail_refresh:
+            from aws_durable_execution_sdk_python.exceptions import BackgroundThreadError
+            self.dead = BackgroundThreadError("Checkpoint creation failed", RuntimeError("api down"))
+            self.log.append((operation_update, is_sync))
+            raise self.dead
         self.log.append((operation_update, is_sync))
         self.events.append(("update", operation_update.action if operation_update else None, is_sync,
                             operation_update.operation_id if operation_update else None))
